@@ -183,7 +183,7 @@ pub fn run_case(c: &Case, with_mock: bool) -> Outcome {
         fails.push((
             key,
             what.trim_start_matches("KNOWN-CLASS ").to_string(),
-            json!({"case": body, "observed": extra, "replay": format!("echo 'run {body}' > /verif/work/C18/replay.txt && H_C18_ADHOC=/verif/work/C18/replay.txt /verif/harness/target/release/h-c18")}),
+            json!({"case": body, "observed": extra, "replay": "write the line `run <case>` to a file F, then run the harness binary h-c18 with H_C18_ADHOC=F"}),
         ));
     };
     let w = witness_map(c);
